@@ -168,7 +168,7 @@ int cmd_openenum(FILE *job, FILE *out) {
         free(t);
         free(line);
     }
-    run_opts o = {.chunk = 32, .timeout_ms = 10000};
+    run_opts o = {.chunk = 32, .timeout_ms = 10000, .confirm_hang = true};
     run_cases(c.n, run_one, &c, o, out);
     return 0;
 }
